@@ -319,8 +319,8 @@ class Worker:
 
     def _add_task(self, task: RuntimeTask) -> None:
         """Start a task and add it to the loop."""
-        self._tasks[task.return_address] = task
         task.start()
+        self._tasks[task.return_address] = task
         self._ready_task_ids.put(task.return_address)
 
     def _handle_result(self, result: RuntimeResult) -> None:
